@@ -5,10 +5,18 @@ ConnectionManager), scheduled call-by-call by the harness, doing read / modify /
 with expected_phase) / retry on ONE stage with tasks through the public store API.  After every op the durable stage row
 and task rows (read through a separate connection) and the outcome (ok / ConcurrencyError) are compared with the Lean
 model `Stab.CasRow`.  The engine-level pairs (signal vs task result, …) are separate suites (engine_pairs, if present).
+
+Torn reads: a read call (retrieve_stage, retrieve, get_{upstream,downstream,synthetic}_stages, and the upstream / synthetic
+stage objects retrieve_stage hangs on `execution.stages`) is several SQL statements.  Client A is parked (dbshim gate) before
+statement k of its read call, for EVERY k, while client B performs a complete committed write to the same stage; A then
+modifies another field and writes.  The real store is compared, schedule by schedule, with the split-read model
+(`cas split s …`: readRow / readTasks / readEnd with B's ops in between) and implementation-only monitors check that a
+successful write keeps every committed field it did not touch and that an object mixing two row states is refused.
 """
 from __future__ import annotations
 
 import json
+import re
 import shutil
 import sqlite3
 import uuid
@@ -20,11 +28,22 @@ from harness.dbshim import CTL, Worker, install
 RULE = ("random interleavings (10-32 ops) of read / modify (append a log entry, optionally set the stage status, set a task's "
         "status, add a task) / write(auto-commit | transaction) with or without expected_phase / retry by 2-3 clients on one "
         "stage with 0-3 tasks, plus (rarely) an outside writer bumping a task row; a case is distinct by its canonical "
-        "(initial status, #tasks, op list) and non-trivial when two clients hold a snapshot of the same version and both write")
+        "(initial status, #tasks, op list) and non-trivial when two clients hold a snapshot of the same version and both write; "
+        "torn reads: exhaustive product of read API (7: retrieve_stage, retrieve, get_upstream/downstream/synthetic_stages, and the "
+        "upstream / synthetic objects on retrieve_stage(other).execution.stages) x EVERY statement index k of that read call "
+        "(k = 0: writer entirely before, k = #statements: entirely after the read; the count is measured, so an added statement is "
+        "covered) x writer B kind (context key via auto-commit, status via transaction, task status via transaction) x A's write "
+        "(auto-commit | transaction, without | with expected_phase = the status A read) x #tasks, plus random schedules with two "
+        "writers parked in two gaps, retries and status / task modifications by A; non-trivial when B commits strictly inside A's read")
 ASSUMPTIONS = [
     "interleaving granularity is the store API call: SQLite admits one writer at a time, so statements of two store_stage "
     "calls cannot interleave between the first UPDATE and the commit (trusted: SQLite locking)",
-    "retrieve_stage is treated as one atomic read (its two SELECTs are not interleaved with a writer)",
+    "in the random Mode-A suite (cas-mode-a) a read is one atomic call; the torn-read suite splits every read API at every "
+    "SQL statement boundary with a complete committed write of another connection in between (statement = one "
+    "sqlite3.Connection.execute call; a writer cannot commit INSIDE one SELECT: SQLite statement isolation, trusted)",
+    "torn-read suite: which statement supplies the stage row / the task rows of the returned object is recognised as the first "
+    "full-row SELECT on stage_executions / task_executions whose result contains the target (per API: the n-th such statement); "
+    "a wrong recognition shows up as a correspondence failure because the object handed out is part of the compared output",
     "if a store_stage call that raised ConcurrencyError leaves a write transaction open on its connection (it did before the "
     "F33 repair) the harness commits it at once — what that connection's next commit would do — and the monitor "
     "`failed-write-changed-row` checks that the durable rows did not change",
@@ -32,6 +51,11 @@ ASSUMPTIONS = [
 TRUSTED_BASE = [
     "hand-written model lean/Stab/Model/CasRow.lean of store_stage (store and transaction) and upsert_task, tied to the code by "
     "the Mode-A differential and by the generated SQL shapes (lean/Stab/Gen/StoreSql.lean, theorems gen_*)",
+    "hand-written split-read model (CasRow.SOp: readRow / readTasks / readVer / readEnd, Variant.sameStatement = the code) of the "
+    "seven read paths, tied to the code by the torn-read differential (every statement index of every read API) and by the generated "
+    "read-path facts (StoreSql.readPathVersionAssignments / readPathVersionSelects / rowToStage*FromRow, theorem "
+    "gen_read_version_same_statement); statements of a read that touch other tables / other stages are not modelled (no effect on "
+    "the object's version, status, context, tasks)",
     "SQLite: single writer, atomic commit/rollback, UNIQUE/PRIMARY KEY enforcement (IntegrityError)",
 ]
 
@@ -446,6 +470,351 @@ def _upsert_suite(ctx, pool: Pool, n: int) -> None:
     ctx.correspond("upsert-task", inputs, lines, impl)
 
 
+# ------------------------------------------------------------------------------------------------
+# torn reads: a read call is several SQL statements; another client's committed write falls between two of them
+# ------------------------------------------------------------------------------------------------
+
+_FULL_STAGE_ROW = re.compile(r"^\s*SELECT\s+(\*|stage_executions\.\*)\s+FROM\s+stage_executions\b", re.I | re.S)
+_TASK_ROWS = re.compile(r"^\s*SELECT\s+\*\s+FROM\s+task_executions\b", re.I | re.S)
+
+
+class ReadApi:
+    """one way the handlers obtain the StageExecution they later pass to store_stage"""
+
+    def __init__(self, call, pick, row_rank: int = 0):
+        self.call = call          # (store, bed) -> whatever the API returns
+        self.pick = pick          # (result, bed) -> the target StageExecution inside it
+        self.row_rank = row_rank  # the object is built from the n-th full-row SELECT that returns the target
+
+
+def _by_id(stages, bed):
+    return [x for x in stages if x.id == bed.stage_id][0]
+
+
+READ_APIS: dict[str, ReadApi] = {
+    # with_stage / with_task / every `fresh = repository.retrieve_stage(id)` in the handlers
+    "retrieve_stage": ReadApi(lambda st, b: st.retrieve_stage(b.stage_id), lambda r, b: r),
+    # with_execution, workflow_control, jump_to_stage, start_stage conditions: stages of a retrieved workflow
+    "retrieve": ReadApi(lambda st, b: st.retrieve(b.wf_id), lambda r, b: _by_id(r.stages, b)),
+    "get_upstream_stages": ReadApi(lambda st, b: st.get_upstream_stages(b.wf_id, "d"), _by_id),
+    "get_downstream_stages": ReadApi(lambda st, b: st.get_downstream_stages(b.wf_id, "u"), _by_id),
+    "get_synthetic_stages": ReadApi(lambda st, b: st.get_synthetic_stages(b.wf_id, b.parent_id), _by_id),
+    # `stage.execution.stages` of a retrieved stage holds its upstream and synthetic stages (complete_stage/split_logic stores those)
+    "retrieve_stage.upstream": ReadApi(lambda st, b: st.retrieve_stage(b.down_id), lambda r, b: _by_id(r.execution.stages, b)),
+    "retrieve_stage.synthetic": ReadApi(lambda st, b: st.retrieve_stage(b.parent_id), lambda r, b: _by_id(r.execution.stages, b)),
+}
+
+B_KINDS = {
+    # a complete committed read-modify-write of client 1, each bumping the row version as the real code does
+    "ctx": ["read:1", "mod:1:-:7:-:0", "write:1:p:-"],          # another context key, auto-commit path
+    "status": ["read:1", "mod:1:3:7:-:0", "write:1:t:-"],       # stage status, transactional path
+    "task": ["read:1", "mod:1:-:7:0.4:0", "write:1:t:-"],       # a task's status, transactional path
+}
+A_WRITES = ["write:0:p:-", "write:0:t:-", "write:0:p:@", "write:0:t:@"]   # @ = expected_phase := the status A's object carries
+
+
+class TornBed(Bed):
+    """p (parent) ⊃ s;  u → s → d : the target stage `s` (with the tasks) is reachable through every read API"""
+
+    def _build(self) -> None:
+        from stabilize import SqliteWorkflowStore, StageExecution, TaskExecution, Workflow
+        from stabilize.models.stage import SyntheticStageOwner
+        from stabilize.models.status import WorkflowStatus
+
+        self.STAT = list(WorkflowStatus)
+        self.api = "?"
+        self.bkind = "?"
+        self.snaps: list[dict] = []
+        self.stmts: list[str] = []
+        self.torn: dict[int, bool] = {}
+        self.keep = None
+        self.nstmts = 0
+        self.was_torn = False
+        self.obj_desc = ""
+
+        def mk():
+            self.store = SqliteWorkflowStore(self.cs, create_tables=True)
+            tasks = []
+            for i in range(self.ntasks):
+                tasks.append(TaskExecution.create(name=f"t{i}", implementing_class="x", stage_start=(i == 0), stage_end=(i == self.ntasks - 1)))
+            par = StageExecution.create(type="x", name="p", ref_id="p", context={})
+            up = StageExecution.create(type="x", name="u", ref_id="u", context={})
+            st = StageExecution.create(type="x", name="s", ref_id="s", context={"log": []}, requisite_stage_ref_ids={"u"})
+            st.tasks = tasks
+            st.status = self.STAT[self.status0]
+            down = StageExecution.create(type="x", name="d", ref_id="d", context={}, requisite_stage_ref_ids={"s"})
+            wf = Workflow.create(application="verif", name="c07torn", stages=[par, up, st, down])
+            # made a synthetic child of `p` after the submit-time graph validation (the engine injects synthetic stages later, too)
+            st.parent_stage_id = par.id
+            st.synthetic_stage_owner = SyntheticStageOwner.STAGE_BEFORE
+            self.store.store(wf)
+            self.stage_id, self.wf_id, self.parent_id, self.down_id = st.id, wf.id, par.id, down.id
+            return [t.id for t in tasks]
+
+        ids = self.clients[0].call(mk)
+        for i, t in enumerate(ids):
+            self.tid[t] = i
+
+    def full(self) -> dict:
+        """the durable row as the monitors see it: version, status, every context key, task (ordinal -> (version, status))"""
+        v, stt, cx = self.admin.execute("SELECT version, status, context FROM stage_executions WHERE id = ?", (self.stage_id,)).fetchone()
+        trs = self.admin.execute("SELECT id, version, status FROM task_executions WHERE stage_id = ? ORDER BY id ASC", (self.stage_id,)).fetchall()
+        names = [x.name for x in self.STAT]
+        return {"version": v, "status": names.index(stt), "context": json.loads(cx),
+                "tasks": {self.tid.get(i, -1): (ver, names.index(s2)) for i, ver, s2 in trs}}
+
+    def _apply_mod(self, c: int, mod: tuple) -> None:
+        super()._apply_mod(c, mod)
+        self.obj[c].context[f"k{mod[1]}"] = mod[1]      # every modification also owns a context key nobody else writes
+
+    def obj_line(self, st) -> str:
+        names = [x.name for x in self.STAT]
+        pl = ",".join(str(x) for x in st.context.get("log", [])) or "-"
+        ts = ",".join(f"{self.tid.get(t.id, -1)}.{t.version}.{names.index(t.status.name)}" for t in st.tasks) or "-"
+        return f"{st.version}.{names.index(st.status.name)}.{pl}@{ts}"
+
+    def is_torn(self, st) -> bool:
+        """the object is not the image of ONE durable state of the row (stage part and task part from the same state)"""
+        names = [x.name for x in self.STAT]
+        mine = (st.version, names.index(st.status.name), json.dumps(st.context, sort_keys=True),
+                {self.tid.get(t.id, -1): (t.version, names.index(t.status.name)) for t in st.tasks})
+        return not any(mine == (sn["version"], sn["status"], json.dumps(sn["context"], sort_keys=True), sn["tasks"]) for sn in self.snaps)
+
+    def step(self, op: str) -> None:
+        toks = op.split(":")
+        if toks[0] not in ("write", "retry") or int(toks[1]) not in self.obj:
+            super().step(op)
+            if toks[0] == "read":
+                self.torn[int(toks[1])] = False
+            return
+        c = int(toks[1])
+        before = self.full()
+        pend = list(self.pend[c])
+        torn = self.torn.get(c, False) and toks[0] == "write"
+        positions = {m[2][0] for m in pend if m[2] is not None}
+        touched = {self.tid.get(self.obj[c].tasks[k].id, -1) for k in positions if k < len(self.obj[c].tasks)}
+        saved, self.lost_reported = self.lost_reported, True     # the specific monitor below looks first
+        try:
+            super().step(op)
+        finally:
+            self.lost_reported = saved
+        out = self.outs[-1].split("#")[0]
+        after = self.full()
+        if out != "ok":
+            self.check_fold(op)
+            return
+        self.torn[c] = False
+        lost = []
+        for k, v in before["context"].items():
+            if k != "log" and after["context"].get(k) != v:
+                lost.append(f"context key {k}")
+        if not any(m[0] is not None for m in pend) and after["status"] != before["status"]:
+            lost.append(f"status {before['status']} -> {after['status']}")
+        for t, (_, stt) in before["tasks"].items():
+            if t not in touched and t in after["tasks"] and after["tasks"][t][1] != stt:
+                lost.append(f"task {t} status {stt} -> {after['tasks'][t][1]}")
+        if after["version"] != before["version"] + 1:
+            lost.append(f"version {before['version']} -> {after['version']} (not +1)")
+        if lost or torn:
+            self.lost_reported = True    # the generic fold monitor would only repeat this
+            self.hit(f"{self.api}: client {c}'s store_stage (`{op}`) SUCCEEDED"
+                     + (" with an object that mixes two states of the row (torn read: " + self.obj_desc + ")" if torn else "")
+                     + (f" and silently reverted committed changes it never touched: {', '.join(lost)}" if lost else "")
+                     + f"; row before the write {_short(before)}, after {_short(after)}",
+                     f"torn-read:lost-update:{self.api}:{self.bkind}")
+        else:
+            self.check_fold(op)
+
+
+def _short(d: dict) -> str:
+    return f"v{d['version']} status={d['status']} context={json.dumps(d['context'], sort_keys=True)} tasks={d['tasks']}"
+
+
+def run_torn(pool: Pool, sc: dict, trace: list[str] | None = None) -> TornBed:
+    """sc = {api, status, ntasks, bkind, mid: [[k, [ops of other clients]] …], a: [ops of client 0 after the read]}
+    k = index of the statement of A's read call BEFORE which A is parked; k >= #statements = after the call returned."""
+    api = READ_APIS[sc["api"]]
+    bed = TornBed(sc["status"], sc["ntasks"], pool.base, pool.clients)
+    bed.api, bed.bkind = sc["api"], sc.get("bkind", "mixed")
+    a = bed.clients[0]
+    mids = {int(k): list(ops) for k, ops in sc["mid"]}
+    seen = {"n": 0, "rows": 0, "row_at": None, "tasks_at": None}
+    store = bed.store
+
+    def say(x: str) -> None:
+        if trace is not None:
+            trace.append(x)
+
+    def record(op: str, out: str) -> None:
+        bed.ops.append(op)
+        bed.outs.append(out + "#" + bed.state_line())
+
+    def gate(sql, params):
+        i = seen["n"]
+        seen["n"] += 1
+        if i in mids:
+            a.park_here({"k": i})
+        kind = "other"
+        try:
+            if seen["row_at"] is None and _FULL_STAGE_ROW.match(sql):
+                cur = bed.admin.execute(sql, params)
+                col = [d[0] for d in cur.description].index("id")
+                if any(r[col] == bed.stage_id for r in cur.fetchall()):
+                    if seen["rows"] == api.row_rank:
+                        seen["row_at"], kind = i, "row"
+                    seen["rows"] += 1
+            elif seen["row_at"] is not None and seen["tasks_at"] is None and _TASK_ROWS.match(sql) and _names_target(params, bed.stage_id):
+                seen["tasks_at"], kind = i, "tasks"
+        except sqlite3.Error:
+            pass
+        bed.stmts.append(f"{i}:{kind}:" + " ".join(sql.split())[:90])
+        say(f"  A stmt {i:2d} [{kind:5s}] " + " ".join(sql.split())[:110])
+        if kind == "row":
+            record("rrow:0", "ok")
+        elif kind == "tasks":
+            record("rtasks:0", "ok")
+
+    bed.snaps.append(bed.full())
+    try:
+        CTL.gates[a.ident] = gate
+        a.start_call(lambda: api.call(store, bed))
+        while True:
+            kind, val = a.wait_parked_or_done()
+            if kind == "done":
+                break
+            say(f"  A parked before stmt {val['k']}")
+            for op in mids.pop(val["k"]):
+                bed.step(op)
+                say(f"    {op:24s} -> {bed.outs[-1]}")
+            bed.snaps.append(bed.full())
+            a.resume()
+        CTL.gates.pop(a.ident, None)
+        bed.keep = val
+        st = api.pick(val, bed)
+        bed.obj[0], bed.pend[0] = st, []
+        bed.nstmts = seen["n"]
+        bed.torn[0] = bed.was_torn = bed.is_torn(st)
+        bed.obj_desc = f"object {bed.obj_line(st)} context keys {sorted(k for k in st.context if k != 'log')}"
+        record("rend:0", "ok@" + bed.obj_line(st))
+        say(f"  A's read returned {bed.obj_desc}" + ("   <-- TORN: no single durable state of the row looks like this" if bed.torn[0] else ""))
+        for k in sorted(mids):        # writers entirely after the read call
+            for op in mids[k]:
+                bed.step(op)
+                say(f"    {op:24s} -> {bed.outs[-1]}")
+            bed.snaps.append(bed.full())
+        names = [x.name for x in bed.STAT]
+        for op in sc["a"]:
+            if op.endswith(":@"):
+                op = op[:-1] + str(names.index(bed.obj[0].status.name))
+            nh = len(bed.hits)
+            bed.step(op)
+            say(f"  {op:26s} -> {bed.outs[-1]}")
+            for what, sig in bed.hits[nh:]:
+                say(f"PROPERTY FAILS at step `{op}`: {what}  [{sig}]")
+    finally:
+        CTL.gates.pop(a.ident, None)
+        if a.busy:
+            a.resume(abort=True)
+            try:
+                a.wait_parked_or_done(10)
+            except BaseException:  # noqa: BLE001
+                pass
+        bed.close()
+    return bed
+
+
+def _names_target(params, stage_id: str) -> bool:
+    vals = params.values() if isinstance(params, dict) else params
+    return any(v == stage_id for v in vals)
+
+
+def _torn_line(bed: TornBed) -> str:
+    return f"cas split s {bed.status0} {bed.ntasks} " + ";".join(bed.ops)
+
+
+def torn_scenarios(pool: Pool, ntasks_by_api) -> list[dict]:
+    """the exhaustive product; the number of statements of each read call is measured on the tree under test"""
+    out = []
+    for name in READ_APIS:
+        for nt in ntasks_by_api(name):
+            n = run_torn(pool, {"api": name, "status": 1, "ntasks": nt, "mid": [], "a": []}).nstmts
+            for k in range(n + 1):
+                for bk, bops in B_KINDS.items():
+                    if bk == "task" and nt == 0:
+                        continue
+                    for aw in A_WRITES:
+                        out.append({"api": name, "status": 1, "ntasks": nt, "bkind": bk, "mid": [[k, bops]],
+                                    "a": ["mod:0:-:8:-:0", aw]})
+    return out
+
+
+def gen_torn(rng, thorough: bool) -> dict:
+    """random: one or two writers parked in one or two gaps (or after the read), A modifies status / tasks too, writes, retries"""
+    name = rng.choice(list(READ_APIS))
+    nt = rng.choice([0, 1, 2, 3])
+    status = rng.choice([0, 1, 1, 3])
+    entry = [1]
+
+    def writer(c: int) -> list[str]:
+        ops = [f"read:{c}"]
+        for _ in range(rng.choice([1, 1, 2])):
+            stt = rng.choice(["-", "-", "1", "3", "4"])
+            ts = f"{rng.randrange(nt)}.{rng.choice([1, 4, 6])}" if nt and rng.random() < 0.4 else "-"
+            add = "1" if rng.random() < 0.1 else "0"
+            ops.append(f"mod:{c}:{stt}:{entry[0]}:{ts}:{add}")
+            entry[0] += 1
+        ops.append(f"{rng.choice(['write', 'write', 'retry'])}:{c}:{rng.choice(['p', 't'])}:-")
+        return ops
+
+    ks = sorted(rng.sample(range(0, 13), rng.choice([1, 1, 2])))
+    mid = [[k, writer(1 + i)] for i, k in enumerate(ks)]
+    a = []
+    for _ in range(rng.choice([1, 1, 2])):
+        stt = rng.choice(["-", "-", "-", "4"])
+        ts = f"{rng.randrange(nt)}.{rng.choice([1, 4, 6])}" if nt and rng.random() < 0.3 else "-"
+        a.append(f"mod:0:{stt}:{entry[0]}:{ts}:0")
+        entry[0] += 1
+    a.append(f"write:0:{rng.choice(['p', 't'])}:{rng.choice(['-', '-', '@'])}")
+    if rng.random() < 0.5:
+        a.append(f"retry:0:{rng.choice(['p', 't'])}:-")
+    return {"api": name, "status": status, "ntasks": nt, "bkind": "mixed", "mid": mid, "a": a}
+
+
+def _torn_suite(ctx, pool: Pool) -> None:
+    inputs, lines, impl = [], [], []
+
+    def one(sc: dict, tag: str) -> None:
+        bed = run_torn(pool, sc)
+        inside = any(0 < int(k) < bed.nstmts for k, _ in sc["mid"])
+        ctx.count(["torn", sc], nontrivial=True)
+        ctx.tag(f"torn:{tag}", "torn:api:" + sc["api"], "torn:B-inside-read" if inside else "torn:B-before-or-after-read",
+                "torn:A-object-" + ("mixes-two-row-states" if bed.was_torn else "whole"))
+        for o in bed.outs[-len(sc["a"]):] if sc["a"] else []:
+            ctx.tag("torn:A-out:" + o.split("#")[0])
+        inputs.append({"torn": sc})
+        lines.append(_torn_line(bed))
+        impl.append("|".join(bed.outs))
+        if len([x for x in ctx.samples if "torn" in x]) < 2 and inside:
+            ctx.sample({"suite": "torn-read", "torn": sc, "statements": bed.stmts, "outs": bed.outs})
+        seen = set()
+        for what, sig in bed.hits:
+            if sig not in seen:
+                seen.add(sig)
+                ctx.violation(what, sig, {"torn": sc})
+
+    scs = torn_scenarios(pool, (lambda n: [1, 0, 2] if n == "retrieve_stage" else [1]) if not ctx.thorough else (lambda n: [1, 0, 2]))
+    for sc in scs:
+        one(sc, "enumerated")
+    ctx.extra["torn_read_enumerated"] = len(scs)
+    ctx.extra["torn_read_statements_per_api"] = {}
+    for sc in scs:
+        key = f"{sc['api']}/{sc['ntasks']}"
+        ctx.extra["torn_read_statements_per_api"][key] = max(ctx.extra["torn_read_statements_per_api"].get(key, 0), int(sc["mid"][0][0]))
+    for _ in range(ctx.n(250, 2000)):
+        one(gen_torn(ctx.rng, ctx.thorough), "random")
+    ctx.correspond("torn-read", inputs, lines, impl)
+
+
 def _run_replays(ctx, pool: Pool) -> None:
     d = core.VERIF / "replays" / "C07"
     if not d.is_dir():
@@ -454,6 +823,21 @@ def _run_replays(ctx, pool: Pool) -> None:
     for f in sorted(d.glob("*.json")):
         body = json.loads(f.read_text())
         r = body.get("replay", body)
+        if "torn" in r:
+            tb = run_torn(pool, r["torn"])
+            ctx.count(["torn", r["torn"]])
+            ctx.tag("replay-file")
+            inputs.append({"file": f.name})
+            lines.append(_torn_line(tb))
+            impl.append("|".join(tb.outs))
+            seen = set()
+            for what, sig in tb.hits:
+                if sig not in seen:
+                    seen.add(sig)
+                    ctx.violation(what, sig, {"torn": r["torn"]})
+            if not tb.hits and body.get("expect") == "violation":
+                ctx.notes.append(f"replay {f.name}: the recorded finding no longer reproduces (fixed?)")
+            continue
         if "ops" not in r:
             continue
         bed = run_fixed(pool, r["status"], r["ntasks"], r["ops"])
@@ -482,6 +866,7 @@ def run(ctx) -> None:
     pool = Pool()
     try:
         _run_replays(ctx, pool)
+        _torn_suite(ctx, pool)
         _upsert_suite(ctx, pool, ctx.n(500, 5000))
         _suite(ctx, pool, ctx.n(3000, 25000), "cas-mode-a")
     finally:
@@ -517,6 +902,25 @@ def replay(ctx, body) -> int:
     pool = Pool()
     try:
         r = body.get("replay", body)
+        if "torn" in r:
+            sc = r["torn"]
+            print(f"torn read: client 0 calls {sc['api']} on a stage with {sc['ntasks']} task(s), initial status {sc['status']}; "
+                  f"other clients' complete writes are placed before statement(s) {[k for k, _ in sc['mid']]} of that call")
+            trace: list[str] = []
+            tb = run_torn(pool, sc, trace)
+            for ln in trace:
+                print(ln)
+            for variant, name in (("s", "Variant.sameStatement (the code as modelled)"), ("r", "Variant.rereadVersion (version re-read by a last statement)")):
+                ops = list(tb.ops)
+                if variant == "r":
+                    ops.insert(ops.index("rend:0"), "rver:0")
+                model = ctx.lean([f"cas split {variant} {tb.status0} {tb.ntasks} " + ";".join(ops)])
+                if model is not None:
+                    got = model[0].split("|")
+                    if variant == "r":
+                        del got[ops.index("rver:0")]
+                    print(f"model {name} agrees with the implementation on this schedule:", got == tb.outs)
+            return 1 if tb.hits else 0
         if "ops" not in r:
             from harness import engine_pairs
 
